@@ -1113,7 +1113,26 @@ func (s *Sim) stepQuiesce(rounds int) bool {
 			break
 		}
 	}
-	s.rules.onQuiesceEnd(rounds)
+	// the budget is an estimate: as long as the backlog keeps shrinking the
+	// server is granted more periods; only a backlog that does not shrink for
+	// a dozen periods (or is still there when nothing moves) is judged
+	stall, extra := 0, 0
+	last := s.rules.backlog()
+	for s.alive && !s.shutdownRequested && last > 0 && extra < 200 && stall < 12 {
+		s.autoRound(step)
+		extra++
+		if b := s.rules.backlog(); b < last {
+			last, stall = b, 0
+		} else {
+			stall++
+		}
+	}
+	if last > 0 && stall < 12 {
+		s.Probes["convergence_inconclusive"]++
+		s.rules.quiescing = false
+		return true
+	}
+	s.rules.onQuiesceEnd(rounds + extra)
 	return true
 }
 
